@@ -361,6 +361,12 @@ func getListLength(data any) (int, error) {
 		return len(val), nil
 	case []float64:
 		return len(val), nil
+	case []string:
+		return len(val), nil
+	case [][]byte:
+		return len(val), nil
+	case []any:
+		return len(val), nil
 	}
 	return 0, fmt.Errorf("invalid type")
 }
